@@ -4,7 +4,7 @@
   Part 1 (`Memo`): the protocol every cache in pony/orm follows —
         v = cache.get(key(i));  if v is not None [and the re-check accepts it]: return v
         v = compute(i);  [if cacheable(i):] cache[skey(i)] = v;  return v
-    `key` is the key the entry is LOOKED UP with and `skey` the key it is STORED under (they differ in `Entity._load_`
+    `key` is the key the entry is LOOKED UP with and `skey` the key it is STORED under (they differ in `Entity.load`
     — `attrs` is rebound before the store — and differed in `adapt_sql` before de506b3); `accept` is the re-check applied to
     a hit (`Query._get_translator`: `fixed_param_values` against the new parameter values, `func_vartypes`), on failure the
     entry is popped (`popOnReject`) or left (func_vartypes branch) and the value recomputed; `cacheable` is
@@ -177,7 +177,7 @@ def insertKeyNested (i : InsertIn) : Int × List Int × Option Int := (i.table, 
     `if items_count: assert batch_size == 1; cache_key = -items_count  else: cache_key = batch_size` -/
 def m2mKey (batchSize itemsCount : Int) : Int := if itemsCount ≠ 0 then -itemsCount else batchSize
 
-/-- `Entity._load_`: looked up with the tuple of attributes to load; on a miss `attrs` is rebound to
+/-- `Entity.load`: looked up with the tuple of attributes to load; on a miss `attrs` is rebound to
     `pk_attrs + (discriminator,)? + attrs` and the entry is stored under THAT tuple -/
 structure LoadCfg where
   pk : List Int
@@ -215,6 +215,21 @@ def trMemo (pins : List Int → List Int) (norm : Option Int → Option Int) : M
 
 /-- what a query built from the translator really uses: the translator with the values pinned from the query's OWN parameters -/
 def trSpec (pins : List Int → List Int) (norm : Option Int → Option Int) (i : TrIn) : Translator := trCompute pins norm i
+
+/-- `create_extractors`: an input is the code key plus what the split into external expressions really depends on — how the
+    called names are classified in the caller's scope (`PreTranslator.postCall`) and the outer names; the value records what it
+    was computed from.  `recheck` = the entry stores that classification and a hit is re-validated against the new scope
+    (regenerated from the source: `Gen.CacheKeys.extractorsRecheck`). -/
+structure ExIn where
+  code : Int
+  scope : List Int
+  outer : List Int
+  deriving DecidableEq, Repr
+
+def exMemo {V : Type} (recheck : Bool) (F : ExIn → V) : Memo ExIn Int (ExIn × V) :=
+  { key := fun i => i.code, skey := fun i => i.code, compute := fun i => (i, F i),
+    accept := fun i v => !recheck || (decide (v.1.scope = i.scope) && decide (v.1.outer = i.outer)),
+    cacheable := fun _ => true, popOnReject := fun _ _ => false }
 
 /-! ## Part 4: the per-session result cache -/
 namespace ResultCache
